@@ -81,6 +81,8 @@ pub struct LayoutStats {
     pub pages_of_leading_non_data: bool,
     pub max_packet_len: u64,
     pub max_stream_len_in_packet: u64,
+    pub max_non_data_packet_len: u64,
+    pub max_index_level: u64,
 }
 
 #[derive(Clone, Debug, Default)]
@@ -154,7 +156,8 @@ fn data_packet(chunks: &[&[u8]]) -> Vec<u8> {
 }
 
 fn ignored_packet(r: &mut Rng) -> Vec<u8> {
-    let words = 1 + r.usize_below(6);
+    // usually a few words; now and then up to the largest packet the length field can express
+    let words = if r.chance(1, 12) { *r.pick(&[16384usize, 16383, 8192, 300]) } else { 1 + r.usize_below(6) };
     let mut p = vec![0u8; 4 * words];
     p[0] = 2;
     r.fill(&mut p[4..]);
@@ -164,11 +167,11 @@ fn ignored_packet(r: &mut Rng) -> Vec<u8> {
 }
 
 /// Index packet with `n` entries; entry offsets are patched later (relative logical offsets given).
-fn index_packet(entries: &[(u64, u64)]) -> (Vec<u8>, Vec<(usize, u64)>) {
+fn index_packet(entries: &[(u64, u64)], level: u8) -> (Vec<u8>, Vec<(usize, u64)>) {
     let mut p = vec![0u8; 16];
     p[0] = 0;
     p[4..6].copy_from_slice(&(entries.len() as u16).to_le_bytes());
-    p[6] = 0;
+    p[6] = level;
     let mut patches = Vec::new();
     for (rec, rel) in entries {
         p.extend_from_slice(&rec.to_le_bytes());
@@ -313,16 +316,29 @@ fn cv_section(pc: &PcRead, layout: &Layout, r: &mut Rng, stats: &mut LayoutStats
     let mut rec_before = 0usize;
     let mut before = vec![0usize; n];
     let n_packets = packets.len();
+    // (first record, relative offset, level) of the index packets written so far
+    let mut index_rels: Vec<(u64, u64, u8)> = Vec::new();
     let mut non_data = |bytes: &mut Vec<u8>, r: &mut Rng, patches: &mut Vec<(usize, u64)>, index_rel: &mut Option<u64>, rels: &Vec<(u64, u64)>, stats: &mut LayoutStats| {
         if r.chance(1, 2) {
             let p = ignored_packet(r);
+            stats.max_non_data_packet_len = stats.max_non_data_packet_len.max(p.len() as u64);
             bytes.extend_from_slice(&p);
             stats.ignored_packets += 1;
         } else {
-            let k = r.usize_below(rels.len().min(3) + 1);
-            let entries: Vec<(u64, u64)> = rels.iter().rev().take(k).cloned().collect();
-            let (p, pp) = index_packet(&entries);
+            // a leaf index packet (level 0) over data packets, or - once index packets exist -
+            // a packet of the next level over the index packets of the highest level so far
+            let top = index_rels.iter().map(|x| x.2).max();
+            let (entries, level): (Vec<(u64, u64)>, u8) = match top {
+                Some(t) if t < 5 && r.chance(1, 2) => (index_rels.iter().filter(|x| x.2 == t).map(|x| (x.0, x.1)).take(4).collect(), t + 1),
+                _ => {
+                    let k = r.usize_below(rels.len().min(3) + 1);
+                    (rels.iter().rev().take(k).cloned().collect(), 0)
+                }
+            };
+            stats.max_index_level = stats.max_index_level.max(level as u64);
+            let (p, pp) = index_packet(&entries, level);
             let base = bytes.len();
+            index_rels.push((entries.first().map(|e| e.0).unwrap_or(0), base as u64, level));
             if index_rel.is_none() {
                 *index_rel = Some(base as u64);
             }
@@ -376,7 +392,7 @@ fn cv_section(pc: &PcRead, layout: &Layout, r: &mut Rng, stats: &mut LayoutStats
     if nd && (r.chance(1, 3) || (index_rel.is_none() && r.chance(1, 2))) {
         // libE57Format 3.x ends sections with an index packet
         let entries: Vec<(u64, u64)> = data_packet_rels.iter().take(4).cloned().collect();
-        let (p, pp) = index_packet(&entries);
+        let (p, pp) = index_packet(&entries, 0);
         let base = bytes.len();
         index_rel = Some(base as u64);
         for (pos, rel) in pp {
